@@ -106,6 +106,7 @@ type Options struct {
 }
 
 type gen struct {
+	ndisk       int // disk statements emitted so far in this package
 	r           *rand.Rand
 	o           Options
 	structs     []StructDef
